@@ -84,4 +84,29 @@ template void wd_use<wd_machines<boost::msm::back::state_machine, boost::msm::ba
 template void wd_use<wd_machines<boost::msm::back11::state_machine>>();
 template void wd_use<wd_machines<boost::msm::backmp11::state_machine_adapter>>();
 template void wd_use<wd_machines<boost::msm::backmp11::state_machine_adapter, boost::msm::backmp11::favor_compile_time>>();
+// ---- a Defer action row whose trigger is a BASE class of the submitted event (the action sees, and defers, the base part only)
+struct wd_bjob { int id = 0; };
+struct wd_ujob : wd_bjob { int prio = 0; };
+struct wd_ready {};
+template <template <typename...> class Back>
+struct wd_base_defer
+{
+    struct Top_ : public msm::front::state_machine_def<Top_>
+    {
+        typedef int activate_deferred_events;
+        struct Waiting : wd_st {}; struct Working : wd_st {};
+        typedef Waiting initial_state;
+        struct transition_table : mpl::vector<
+            msm::front::Row<Waiting, wd_bjob, msm::front::none, msm::front::Defer, msm::front::none>,
+            msm::front::Row<Waiting, wd_ready, Working, msm::front::none, msm::front::none>,
+            msm::front::Row<Working, wd_ujob, Waiting, wd_act, msm::front::none>
+        > {};
+        template <class FSM, class Event> void no_transition(Event const&, FSM&, int) {}
+    };
+    typedef Back<Top_> Top;
+};
+template <class W> void wd_slice_use() { typename W::Top m; m.start(); m.process_event(wd_ujob()); m.process_event(wd_bjob()); m.process_event(wd_ready()); m.stop(); }
+template void wd_slice_use<wd_base_defer<boost::msm::back::state_machine>>();
+template void wd_slice_use<wd_base_defer<boost::msm::back11::state_machine>>();
+template void wd_slice_use<wd_base_defer<boost::msm::backmp11::state_machine_adapter>>();
 }
